@@ -288,6 +288,11 @@ def drain(F, R):
         R.ob('C07.drain', '%s|shutdown|clear_queues' % d.name, bool(closers) and not (rets & b.reachable(0, avoid=closers)),
              'Dispatcher::shutdown can complete without close()/drop_sink()/force_close() (-> clear_queues): pending sends / readiness futures stay unresolved')
         R.ob('C07.drain', '%s|shutdown|drop_payload' % d.name, bool(dps) and not (rets & b.reachable(0, avoid=dps)), 'Dispatcher::shutdown does not fail the streaming payload reader')
+        ys = set(b.yields())
+        early = ys & b.reachable(0, avoid=closers)
+        R.ob('C07.drain', '%s|shutdown|closes-before-first-await' % d.name, bool(closers) and not early,
+             'Dispatcher::shutdown awaits (handler/control shutdown) before closing the sink and io: handlers still running keep the connection writable after the Stop notification '
+             '(responses after the final DISCONNECT, sends that never resolve)', b.loc(sorted(early)[0]) if early else None)
     for ver in ('v3', 'v5'):
         cq = F.one(r'^%s::shared::MqttShared::clear_queues$' % ver)
         w = calls_on_field(cq, r'VecDeque::<T, A>::clear$', 'waiters')
